@@ -30,7 +30,7 @@ from pyvc import rt  # noqa: E402
 from pyvc.contracts import ContractDB  # noqa: E402
 
 
-class Timeout(Exception):
+class Timeout(BaseException):      # must not be swallowed by the code under test
     pass
 
 
@@ -86,7 +86,7 @@ def load_specs():
             path = os.path.join(d, fn)
             exec(compile(open(path).read(), path, "exec"), env)
     for k in ("forall", "exists", "implies", "iff", "ite", "bxor", "sub", "file_content", "file_pos", "fits_bytes", "aes_enc", "aes_dec",
-              "hmac_sha256", "sha256", "rsa_ok", "rsa_pt", "rsa_k", "keypair", "xview", "same", "dlog", "url_path", "url_query", "url_ok", "qsl", "ws_split", "is_response", "is_request"):
+              "hmac_sha256", "sha256", "rsa_ok", "rsa_pt", "rsa_k", "keypair", "xview", "same", "dlog", "url_path", "url_query", "url_ok", "qsl", "ws_split", "is_response", "is_request", "enum_tag", "snapshot", "snapshots"):
         env[k] = getattr(rt, k)
     return env
 
@@ -301,7 +301,7 @@ def run_case(fn, cc, inputs, consts, timeout_s=5, is_generator=False, mode="func
         if pre is None:
             return {"outcome": "pre-false"}
         signal.signal(signal.SIGALRM, _alarm)
-        signal.alarm(timeout_s)
+        signal.setitimer(signal.ITIMER_REAL, timeout_s, 0.5)
         extra = {}
         try:
             call_args = dict(args)
@@ -321,12 +321,13 @@ def run_case(fn, cc, inputs, consts, timeout_s=5, is_generator=False, mode="func
                 except StopIteration:
                     extra.update(found=False, first=None)
                     r = None
-            signal.alarm(0)
+            signal.setitimer(signal.ITIMER_REAL, 0)
         except Timeout:
+            signal.setitimer(signal.ITIMER_REAL, 0)
             return {"outcome": "violation", "kind": "non-termination",
                     "detail": f"did not return within {timeout_s}s", "inputs": inputs, "consts": consts}
         except BaseException as ex:  # noqa: BLE001
-            signal.alarm(0)
+            signal.setitimer(signal.ITIMER_REAL, 0)
             ok, why = cc.check_raise(args, pre, ex, {"aes_calls": AesCounter.calls})
             if ok:
                 return {"outcome": "ok", "raised": type(ex).__name__}
@@ -339,7 +340,7 @@ def run_case(fn, cc, inputs, consts, timeout_s=5, is_generator=False, mode="func
         return {"outcome": "violation", "kind": "postcondition", "clause": k, "clause_src": cc.ensures_src[k],
                 "detail": why, "observed": to_jsonable(r), "inputs": inputs, "consts": consts}
     finally:
-        signal.alarm(0)
+        signal.setitimer(signal.ITIMER_REAL, 0)
         for cname, v in saved_consts.items():
             modn, attr = cname.rsplit(".", 1)
             setattr(importlib.import_module(modn), attr, v)
